@@ -799,7 +799,7 @@ def ttlAnswer (now : Int) (scale : Int) (item : Option Item) : Reply :=
     if it.value.isEmptyColl then .int (-2)
     else match it.expireat with
       | none => .int (-1)
-      | some e => .int (roundHalfEven ((e - now) * scale) TICKS)
+      | some e => .int (roundHalfUp ((e - now) * scale) TICKS)
 
 theorem ttlCore_eq (ctx : Ctx) (k : Bytes) (item : Option Item) (scale : Int) :
     Cmd.ttlCore ctx [ciOf none k item] 0 scale = ret (ttlAnswer ctx.time scale item) [ciOf none k item] := by
@@ -851,22 +851,21 @@ theorem pttl_spec (ctx : Ctx) (k : Bytes) {db : Db} (nd : NodupKeys db.dict) :
     Db.purge (run "pttl" ctx [k] db).db = Db.purge db :=
   ttl_gen "pttl" Cmd.pttl 1000 (fun _ _ => rfl) ctx k nd
 
-theorem roundHalfEven_nonneg {num den : Int} (hn : 0 ≤ num) (hd : 0 < den) : 0 ≤ roundHalfEven num den := by
-  unfold roundHalfEven
-  have h1 : 0 ≤ num / den := Int.ediv_nonneg hn (Int.le_of_lt hd)
-  have h2 : num - num / den * den = num % den := by
-    rw [Int.emod_def, Int.mul_comm]
-  have h3 : 0 ≤ num % den := Int.emod_nonneg _ (by omega)
-  simp only
-  rw [h2]
-  have h4 : ¬ (num % den < 0) := by omega
-  simp only [h4, if_false]
-  split
-  · omega
-  · split
-    · exact h1
-    · split <;> omega
+theorem roundHalfUp_nonneg {num den : Int} (hn : 0 ≤ num) (hd : 0 < den) : 0 ≤ roundHalfUp num den := by
+  unfold roundHalfUp
+  exact Int.ediv_nonneg (by omega) (by omega)
 
+/-- `roundHalfUp num den` is the integer `q` with `q ≤ num/den + 1/2 < q + 1` (nearest, ties UP) -/
+theorem roundHalfUp_iff {num den : Int} (hd : 0 < den) (q : Int) :
+    roundHalfUp num den = q ↔ 2 * den * q ≤ 2 * num + den ∧ 2 * num + den < 2 * den * (q + 1) := by
+  unfold roundHalfUp
+  have hb : 0 < 2 * den := by omega
+  have h1 : ∀ x : Int, x ≤ (2 * num + den) / (2 * den) ↔ x * (2 * den) ≤ 2 * num + den :=
+    fun x => Int.le_ediv_iff_mul_le hb
+  have h2 : ∀ x : Int, (2 * num + den) / (2 * den) < x ↔ 2 * num + den < x * (2 * den) :=
+    fun x => Int.ediv_lt_iff_lt_mul hb
+  rw [Int.mul_comm (2 * den) q, Int.mul_comm (2 * den) (q + 1), ← h1, ← h2]
+  omega
 
 theorem live_deadline_ge {db : Db} {k : Bytes} {it : Item} {e : Int} (h : db.live k = some it)
     (he : it.expireat = some e) : db.time ≤ e := by
@@ -882,13 +881,13 @@ theorem ttlAnswer_cases {db : Db} (k : Bytes) (now scale : Int) (hnow : now = db
     (ttlAnswer now scale (db.live k) = .int (-2) ↔ db.live k = none) ∧
     (ttlAnswer now scale (db.live k) = .int (-1) ↔ ∃ it, db.live k = some it ∧ it.expireat = none) ∧
     (∀ it e, db.live k = some it → it.expireat = some e →
-      ttlAnswer now scale (db.live k) = .int (roundHalfEven ((e - now) * scale) TICKS) ∧
-      0 ≤ roundHalfEven ((e - now) * scale) TICKS) := by
+      ttlAnswer now scale (db.live k) = .int (roundHalfUp ((e - now) * scale) TICKS) ∧
+      0 ≤ roundHalfUp ((e - now) * scale) TICKS) := by
   have hpos : ∀ it e, db.live k = some it → it.expireat = some e →
-      0 ≤ roundHalfEven ((e - now) * scale) TICKS := by
+      0 ≤ roundHalfUp ((e - now) * scale) TICKS := by
     intro it e h he
     have := live_deadline_ge h he
-    apply roundHalfEven_nonneg
+    apply roundHalfUp_nonneg
     · apply Int.mul_nonneg <;> omega
     · decide
   cases h : db.live k with
